@@ -179,6 +179,10 @@ def canon(v, depth=0):
         return ['Undefined', v._name]
     if v is None or v is Ellipsis or v is NotImplemented or isinstance(v, (bool, int, float, complex, str, bytes, slice, range)):
         # (object addresses inside a str(), e.g. '<function <lambda> at 0x7f..>', are not part of the value)
+        if isinstance(v, int) and not isinstance(v, bool) and v.bit_length() > 4096:
+            # (beyond the int->str conversion limit: compared by a digest of the binary form)
+            import hashlib
+            return ['int', 'huge:%d:%s' % (v.bit_length(), hashlib.sha256(v.to_bytes(v.bit_length() // 8 + 2, 'big', signed=True)).hexdigest()[:16])]
         return [type(v).__name__, re.sub(r' at 0x[0-9a-fA-F]+', ' at 0x?', repr(v))]
     if isinstance(v, (list, tuple)):
         return [type(v).__name__, [canon(x, depth + 1) for x in v]]
